@@ -127,6 +127,7 @@ AllK2(ks) == \A i \in 1..Len(arr) : arr[i].k \in ks
 ReprsFor == {"generic"} \cup (IF ~Reprs THEN {} ELSE
               {"msvalues"}
               \cup (IF AllK2({"int"}) THEN {"ints"} ELSE {})
+              \cup (IF AllK2({"int"}) /\ \A i \in 1..(Len(arr) - 1) : arr[i + 1].v = arr[i].v + 1 THEN {"range"} ELSE {})
               \cup (IF AllK2({"str"}) THEN {"strings"} ELSE {})
               \cup (IF AllK2({"map"}) THEN {"maps"} ELSE {})
               \cup (IF Len(arr) = 3 THEN {"array3"} ELSE {})
